@@ -45,6 +45,10 @@ func NewTupleType(types []px.Type, size *IntegerType) *TupleType {
 	var givenOrActualSize *IntegerType
 	sz := int64(len(types))
 	if size == nil {
+		if sz == 0 {
+			// no types and no size: the empty tuple (it would otherwise print as the default `Tuple`)
+			return EmptyTupleType()
+		}
 		givenOrActualSize = NewIntegerType(sz, sz)
 	} else {
 		if sz == 0 {
